@@ -271,6 +271,7 @@ def run(rep: Report, tier: str) -> None:
 
     # ---- R11.5b: the generic validation methods reach a promotion function on every path ----------------
     funnel(P, rep)
+    call_scoped_class_state(P, rep)
     # ---- R11.6 purity -----------------------------------------------------------------------------------
     purity(P, rep)
 
@@ -372,6 +373,30 @@ def funnel(P: Program, rep: Report) -> None:
     for q in FUNNEL_EXEMPT:
         if q not in P.functions:
             rep.note(f"R11.5 exemption no longer needed (function gone): {q}")
+
+
+def call_scoped_class_state(P: Program, rep: Report) -> None:
+    """R11.7  see sa/classstate.py"""
+    from sa import classstate
+    rep.rule("R11.7", "operator classes: a class attribute assigned inside a method (cls.A = ...) is assigned on every path before the same call uses it (no type decision carried over from a previous call)")
+    nm = nob = 0
+    for c in sorted(P.classes.values(), key=lambda k: k.qualname):
+        if not c.qualname.startswith("vtlengine.Operators."):
+            continue
+        for name, f in sorted(c.methods.items()):
+            fnd, k = classstate.stale_reads(P, f)
+            if k:
+                nm += 1
+                nob += k
+                rep.instance("R11.7", f"class-state/{f.qualname}", nontrivial=True, sample={"method": f.qualname, "uses_examined": k} if nm <= 3 else None)
+            for d in fnd:
+                hole = ", ".join(f"`{g}` is {v}" for g, v in d["hole"].items()) or "unconditionally"
+                rep.add(Finding("R11.7", f"R11.7/{f.qualname}/{d['attr']}", f.module.rel, d["line"], f.qualname,
+                                f"{f.qualname} assigns the class attribute `{d['attr']}` (line(s) {d['writes']}) but line {d['line']} {d['how']} on a path where this call "
+                                f"has not assigned it ({hole}): the value used is the one left by an earlier call of the operator, so the result type depends on the call history"
+                                + (f"; guard(s) over reassigned names: {d['unstable']}" if d["unstable"] else "")))
+    rep.floor("R11.7 methods writing class state", nm, 3)
+    rep.floor("R11.7 uses examined", nob, 4)
 
 
 MUTATORS = {"add", "update", "pop", "popitem", "discard", "remove", "clear", "setdefault", "append", "extend", "insert",
